@@ -1,5 +1,259 @@
-//! driver stub (VERIF_CMD=disk)
+//! C19 driver (VERIF_CMD=disk): JSON lines on stdin -> one line `@C19@ <json>` per command on stdout.
+//! Operations on the REAL RollingLogger (create_new / write / write_many), the REAL telemetry event logger
+//! (event_logger::start spawned once per process on a paused-clock tokio runtime + write_event) and the REAL
+//! AuthorizationRulesForLogging::write_all.  Every answer carries the sorted listing of the directory the
+//! operation works on (name, size, first bytes of log files, number of events in event files); the Python side
+//! (checks/c19.py) owns pre-filling, the reader's removals, process restarts and every comparison.
+//!
+//! EVENT_QUEUE / SHUT_DOWN of the event logger are process-global statics: `ev_start` is accepted once per
+//! process; a restart of the event logger is a restart of this process (done by the Python side).
+use crate::key_keeper::key::AuthorizationItem;
+use crate::proxy::authorization_rules::{
+    AuthorizationRulesForLogging, ComputedAuthorizationItem, ComputedAuthorizationRules,
+};
+use proxy_agent_shared::logger::rolling_logger::RollingLogger;
+use proxy_agent_shared::logger::LoggerLevel;
+use proxy_agent_shared::telemetry::event_logger;
+use serde_json::{json, Value};
+use std::collections::HashMap;
+use std::io::{BufRead, Read, Write};
+use std::panic::{catch_unwind, AssertUnwindSafe};
+use std::path::{Path, PathBuf};
+use std::time::Duration;
+
+fn listing(dir: &Path) -> Value {
+    let mut out: Vec<Value> = Vec::new();
+    let rd = match std::fs::read_dir(dir) {
+        Ok(r) => r,
+        Err(_) => return json!([]),
+    };
+    let mut entries: Vec<PathBuf> = rd.filter_map(|e| e.ok().map(|e| e.path())).collect();
+    entries.sort();
+    for p in entries {
+        let md = match std::fs::metadata(&p) {
+            Ok(m) => m,
+            Err(_) => continue,
+        };
+        let name = p.file_name().map(|n| n.to_string_lossy().to_string()).unwrap_or_default();
+        if md.is_dir() {
+            out.push(json!({"name": name, "dir": true}));
+            continue;
+        }
+        let mut entry = json!({"name": name, "size": md.len()});
+        if name.ends_with(".log") {
+            // the first bytes identify the write that created the file (token #...# put there by the check)
+            let mut head = vec![0u8; 96];
+            let n = std::fs::File::open(&p).and_then(|mut f| f.read(&mut head)).unwrap_or(0);
+            head.truncate(n);
+            entry["head"] = json!(String::from_utf8_lossy(&head).to_string());
+        } else if name.ends_with(".json") && md.len() < 4 * 1024 * 1024 {
+            if let Ok(bytes) = std::fs::read(&p) {
+                if let Ok(Value::Array(a)) = serde_json::from_slice::<Value>(&bytes) {
+                    entry["events"] = json!(a.len());
+                }
+            }
+        }
+        out.push(entry);
+    }
+    Value::Array(out)
+}
+
+fn panic_text(e: Box<dyn std::any::Any + Send>) -> String {
+    if let Some(s) = e.downcast_ref::<&str>() {
+        s.to_string()
+    } else if let Some(s) = e.downcast_ref::<String>() {
+        s.clone()
+    } else {
+        "?".to_string()
+    }
+}
+
+fn message(token: &str, len: usize) -> String {
+    // "#token#" followed by padding, exactly `len` bytes
+    let mut m = format!("#{}#", token);
+    while m.len() < len {
+        m.push('x');
+    }
+    m.truncate(len);
+    m
+}
+
+struct State {
+    loggers: HashMap<String, (RollingLogger, PathBuf)>,
+    ev_dir: Option<PathBuf>,
+    ev_interval: Duration,
+    ev_seq: u64,
+}
+
+async fn handle(st: &mut State, cmd: &Value) -> Value {
+    match cmd["op"].as_str().unwrap_or("") {
+        // (re-)create a rolling logger object; `key` names it (several loggers may share a directory)
+        "log_open" => {
+            let dir = PathBuf::from(cmd["dir"].as_str().unwrap_or(""));
+            let logger = RollingLogger::create_new(
+                dir.clone(),
+                cmd["name"].as_str().unwrap_or("").to_string(),
+                cmd["max_size"].as_u64().unwrap_or(0),
+                cmd["max_count"].as_u64().unwrap_or(0) as u16,
+            );
+            st.loggers.insert(cmd["key"].as_str().unwrap_or("log").to_string(), (logger, dir.clone()));
+            json!({"ok": true, "files": listing(&dir)})
+        }
+        // one write of exactly `bytes` bytes: RollingLogger::write (34-byte header + message + '\n') or, with
+        // "many": [n1, n2, ...], RollingLogger::write_many (lines of n_i bytes including their '\n', no header)
+        "log_write" => {
+            let key = cmd["key"].as_str().unwrap_or("log");
+            let (logger, dir) = match st.loggers.get(key) {
+                Some(l) => l,
+                None => return json!({"error": "log_write before log_open"}),
+            };
+            let token = cmd["token"].as_str().unwrap_or("t");
+            let r = catch_unwind(AssertUnwindSafe(|| {
+                if let Some(many) = cmd["many"].as_array() {
+                    let mut lines = Vec::new();
+                    for (i, n) in many.iter().enumerate() {
+                        let n = n.as_u64().unwrap_or(1) as usize;
+                        let t = if i == 0 { token.to_string() } else { format!("{}+{}", token, i) };
+                        lines.push(message(&t, n.saturating_sub(1)));
+                    }
+                    logger.write_many(lines)
+                } else {
+                    let bytes = cmd["bytes"].as_u64().unwrap_or(0) as usize;
+                    logger.write(LoggerLevel::Info, message(token, bytes.saturating_sub(35)))
+                }
+            }));
+            match r {
+                Ok(Ok(())) => json!({"ok": true, "files": listing(dir)}),
+                Ok(Err(e)) => json!({"ok": false, "err": e.to_string(), "files": listing(dir)}),
+                Err(p) => json!({"ok": false, "panic": panic_text(p), "files": listing(dir)}),
+            }
+        }
+        // the event logger task: once per process
+        "ev_start" => {
+            if st.ev_dir.is_some() {
+                return json!({"error": "ev_start twice in one process (EVENT_QUEUE is process-global)"});
+            }
+            let dir = PathBuf::from(cmd["dir"].as_str().unwrap_or(""));
+            let interval = Duration::from_millis(cmd["interval_ms"].as_u64().unwrap_or(10));
+            let cap = cmd["cap"].as_u64().unwrap_or(0) as usize;
+            st.ev_dir = Some(dir.clone());
+            st.ev_interval = interval;
+            tokio::spawn(event_logger::start(dir.clone(), interval, cap, |_| async {}));
+            // let the task run up to its first sleep
+            tokio::task::yield_now().await;
+            json!({"ok": true, "files": listing(&dir)})
+        }
+        "ev_push" => {
+            let dir = match &st.ev_dir {
+                Some(d) => d.clone(),
+                None => return json!({"error": "ev_push before ev_start"}),
+            };
+            let n = cmd["n"].as_u64().unwrap_or(1);
+            for _ in 0..n {
+                st.ev_seq += 1;
+                event_logger::write_event(
+                    LoggerLevel::Info,
+                    format!("c19 event {}", st.ev_seq),
+                    "c19_method",
+                    "c19_module",
+                    "c19_logger",
+                );
+            }
+            json!({"ok": true, "files": listing(&dir)})
+        }
+        // let (virtual) time pass: at least two wake-ups of the event logger loop
+        "ev_tick" => {
+            let dir = match &st.ev_dir {
+                Some(d) => d.clone(),
+                None => return json!({"error": "ev_tick before ev_start"}),
+            };
+            tokio::time::sleep(st.ev_interval * 5 / 2).await;
+            json!({"ok": true, "files": listing(&dir)})
+        }
+        "dump_write" => {
+            let dir = PathBuf::from(cmd["dir"].as_str().unwrap_or(""));
+            let max = cmd["max"].as_u64().unwrap_or(0) as usize;
+            let tag = cmd["tag"].as_str().unwrap_or("0").to_string();
+            let r = catch_unwind(AssertUnwindSafe(|| {
+                let item = AuthorizationItem {
+                    defaultAccess: "deny".to_string(),
+                    mode: "enforce".to_string(),
+                    id: tag.clone(),
+                    rules: None,
+                };
+                let computed = ComputedAuthorizationItem::from_authorization_item(item);
+                let rules = AuthorizationRulesForLogging::new(
+                    None,
+                    ComputedAuthorizationRules {
+                        imds: Some(computed.clone()),
+                        wireserver: Some(computed),
+                        hostga: None,
+                    },
+                );
+                rules.write_all(&dir, max);
+            }));
+            match r {
+                Ok(()) => json!({"ok": true, "files": listing(&dir)}),
+                Err(p) => json!({"ok": false, "panic": panic_text(p), "files": listing(&dir)}),
+            }
+        }
+        "list" => {
+            let dir = PathBuf::from(cmd["dir"].as_str().unwrap_or(""));
+            json!({"ok": true, "files": listing(&dir)})
+        }
+        other => json!({"error": format!("unknown op '{}'", other)}),
+    }
+}
+
 pub fn main() -> i32 {
-    eprintln!("not built yet");
-    2
+    let rt = match tokio::runtime::Builder::new_current_thread()
+        .enable_all()
+        .start_paused(true)
+        .build()
+    {
+        Ok(r) => r,
+        Err(e) => {
+            eprintln!("disk: runtime: {}", e);
+            return 2;
+        }
+    };
+    rt.block_on(async {
+        let mut st = State {
+            loggers: HashMap::new(),
+            ev_dir: None,
+            ev_interval: Duration::from_millis(10),
+            ev_seq: 0,
+        };
+        let stdin = std::io::stdin();
+        let stdout = std::io::stdout();
+        let mut line = String::new();
+        loop {
+            line.clear();
+            match stdin.lock().read_line(&mut line) {
+                Ok(0) => break,
+                Ok(_) => {}
+                Err(e) => {
+                    eprintln!("disk: stdin: {}", e);
+                    return 2;
+                }
+            }
+            if line.trim().is_empty() {
+                continue;
+            }
+            let cmd: Value = match serde_json::from_str(&line) {
+                Ok(v) => v,
+                Err(e) => {
+                    eprintln!("disk: bad command: {}", e);
+                    return 2;
+                }
+            };
+            let out = handle(&mut st, &cmd).await;
+            let mut o = stdout.lock();
+            // the agent's own logger prints to stdout (common::logger::write_console_log): answers carry a marker
+            if writeln!(o, "@C19@ {}", out).is_err() || o.flush().is_err() {
+                return 2;
+            }
+        }
+        0
+    })
 }
